@@ -28,7 +28,7 @@ def anchors():
 
 
 def cases(seed, tier):
-    npoly = 60 if tier == "quick" else 600
+    npoly = 60 if tier == "quick" else 300
     ntis = 40 if tier == "quick" else 400
     out = [{"fam": "poly", "seed": [seed, 20, i], "count": 60} for i in range(npoly)]
     out += [{"fam": "tissue", "seed": [seed, 20, 10 ** 6 + i]} for i in range(ntis)]
